@@ -12,9 +12,10 @@ m("m01a-prep-twice", "C01", "flyt.go",
   "	// Check context again\n	if err := ctx.Err(); err != nil {\n		return \"\", fmt.Errorf(\"run: context cancelled after prep: %w\", err)\n	}\n",
   "	// Check context again\n	if err := ctx.Err(); err != nil {\n		return \"\", fmt.Errorf(\"run: context cancelled after prep: %w\", err)\n	}\n	if _, ok := node.(RetryableNode); !ok {\n		prepResult, _ = node.Prep(ctx, shared)\n	}\n",
   "prep called a second time for nodes without retry settings")
-m("m01b-post-gets-exec-as-prep", "C01", "flyt.go",
-  "	action, err := node.Post(ctx, shared, prepResult, execResult)\n	if err != nil {\n		return \"\", fmt.Errorf(\"run: post failed: %w\", err)\n	}\n\n	if action == \"\" {\n		action = DefaultAction\n	}\n\n	return action, nil\n}\n\n// Flow represents",
-  "	if execErr != nil {\n		prepResult = execResult\n	}\n	action, err := node.Post(ctx, shared, prepResult, execResult)\n	if err != nil {\n		return \"\", fmt.Errorf(\"run: post failed: %w\", err)\n	}\n\n	if action == \"\" {\n		action = DefaultAction\n	}\n\n	return action, nil\n}\n\n// Flow represents")
+m("m01b-post-gets-fallback-value-as-prep", "C01", "flyt.go",
+  "			execResult, execErr = fallback.ExecFallback(prepResult, execErr)\n		}",
+  "			execResult, execErr = fallback.ExecFallback(prepResult, execErr)\n			if execErr == nil {\n				prepResult = execResult\n			}\n		}",
+  "after a rescuing fallback post receives the fallback's value in place of the prep value")
 m("m01c-post-after-failed-fallback", "C01", "flyt.go",
   "		if execErr != nil {\n			return \"\", fmt.Errorf(\"run: exec failed after %d retries: %w\", maxRetries, execErr)\n		}\n	}\n\n	// Post phase\n",
   "		if execErr != nil {\n			if _, perr := node.Post(ctx, shared, prepResult, nil); perr != nil {\n				return \"\", perr\n			}\n			return \"\", fmt.Errorf(\"run: exec failed after %d retries: %w\", maxRetries, execErr)\n		}\n	}\n\n	// Post phase\n",
